@@ -12,8 +12,8 @@
    with copies taken before the call, then overwrites those slices and compares all
    snapshots again; the same for a Details map and for the slice given to resolver.New;
    and (b) the audit of every non-local write site extracted from the source
-   (Gen/Effects.v, obligation C16_effects_audited in Properties/C16.v). *)
-From Errdef Require Import Base.Str Model.Core Model.GoErrors Model.Prog Check.C04 Proofs.C01Proofs Proofs.C04Proofs.
+   (Gen/Effects.v, obligation C04_writes_audited below; the lock-related tables are C16's). *)
+From Errdef Require Import Base.Str Model.Core Model.GoErrors Model.Prog Check.C04 Gen.Effects Spec.EffectsAudit Proofs.C01Proofs Proofs.C04Proofs.
 
 (* no statement changes anything that existed before it *)
 Theorem C04_step_extends : forall s x, extends s (step s x).
@@ -38,6 +38,19 @@ Theorem C04_derive_leaves_base : forall a d ctx os,
   with_ a d ctx os = d \/ d_addr (with_ a d ctx os) = a.
 Proof. exact derive_leaves_base. Qed.
 Print Assumptions C04_derive_leaves_base.
+
+(* Source-derived obligation: the non-local writes, mutator calls and allocating functions
+   that srcgen reads from /repo on this run are exactly the audited ones
+   (Spec/EffectsAudit.v says why each is harmless: option methods write the definition their
+   caller has just allocated, fields.set is only reached through them, buildNode's visited map
+   is per call, unmarshaler options write the unmarshaler under construction, package
+   variables are C16's).  An in-place compaction of a caller's slice, an append into a
+   parent context's option slice or a memoising getter changes Gen/Effects.v and breaks this. *)
+Theorem C04_writes_audited :
+  effects_matched = true /\ write_sites = audited_write_sites /\
+  mutator_calls = audited_mutator_calls /\ fresh_sources = audited_fresh_sources.
+Proof. exact writes_audited. Qed.
+Print Assumptions C04_writes_audited.
 
 Example C04_example :
   let k := {| k_id := 1; k_name := "a"; k_ty := 1 |} in
